@@ -43,9 +43,14 @@ CLAIMED = {
         'between two writes - tree equality of update(write(s0), s1) and write(s1) where s1 differs from s0 by the modifies clauses of add_samples(shell), of the public discard setter and '
         'the loop counters; (3) the real resume block of __init__ executed on that tree restores every continuation-state field, every bound (same object order, class-dispatched reader, '
         'proposal state) and the generator state, handing the one shared generator to every bound; (4) call-order obligations on run(): every state-changing step is followed in the same '
-        'iteration by the matching write, and no run state lives in locals.',
+        'iteration by the matching write, and no run state lives in locals; (5) file-in-sync invariant woven into the symbolic execution of the real run() with the C01 contracts: a ghost '
+        'dirty bit per persistent field (set by every assignment and by the modifies clause of every callee, cleared by write, cleared by write_shell_update only for the set proved '
+        'equivalent in (2) and only for the shell that was sampled) is clear for every field at every loop boundary and at return once a file exists, and a checkpoint written right '
+        'before a batch is re-entrant (the bound-insertion guard is false in the written state), so the file on disk after k batches is the continuation state after k batches.',
    note=TRUST + 'h5py exact + closed world; bounds abstract with the round-trip axiom (C09: proved for Union/basic classes, bounded for NautilusBound/NeuralBound); int(str(x)) = x. The final '
-        'step "equal continuation state => bit-identical continuation" is the determinism argument of C11 and is not machine-checked; constructor arguments are given again on resume.',
+        'step "equal continuation state => bit-identical continuation" is the determinism argument of C11 and is not machine-checked; constructor arguments are given again on resume. (5) assumes the file is in sync at entry of run(), n_update >= 1 and n_like_new_bound >= 1; list '
+        'mutation through .pop() is not tracked (a full write follows it). Replay/bounded leg: stops through n_like_max at batch boundaries, copies of the checkpoint taken at the start '
+        'of every batch (kill during a batch) resumed to completion, bound insertion driven by n_like_new_bound as well as n_update.',
    tech='contract-based deductive verification: write;update;write and write;resume compositions over the HDF5 map theory, z3', ref='7 C05'),
  'C06': dict(
    text='Deductive proof over a ghost file system on the real bodies of Sampler.write and Sampler.write_shell_update (the only two functions that open a file for writing; resume opens '
